@@ -33,6 +33,11 @@ def sweeps(tier):
               nulls=(False, True), missings=(False, True), sizes=(-1, 2)),
         sweep(tv, pairs, cfmts=('s', '6s'), sizes=(-1, 3, 7)),
     ]
+    # untrusted (tainted) values go through the same modifier functions: the laws of C15 hold for them too
+    tt = [text("<b>x' OR 1=1 --\x00\x1a\r", True), text("it's <i>a b_c 1234567.5", True), text("<'>%3C%27+x", True)]
+    out.append(sweep(tt, singles + [['sql_quote', 'upper'], ['sql_quote', 'spacify'], ['url_unquote', 'sql_quote'],
+                                    ['thousands_commas', 'lower'], ['url_quote', 'capitalize']],
+                     fmts=('', 'sql-quote', 'upper', 'url-unquote'), sizes=(-1, 6), forms=('name', 'expr')))
     if tier == 'thorough':
         out.append(sweep(tv, [list(c) for c in itertools.combinations(vc.ALLMODS, 3)], fmts=('', 'strip'),
                          sizes=(-1, 5, 11)))
@@ -71,7 +76,8 @@ def main(tier):
                   rule='13 texts (blanks, _, quotes, %XX, +, digits, control characters, empty) and int/float/None/[] x all '
                        '4096 modifier subsets; single modifiers x 15 formats x sizes -1..8,12,20,30 x etc {absent, "", '
                        '"~~"}; null/missing x defined/undefined/null values; modifier pairs x C-format x sizes; each '
-                       'behaviour written in up to three orders and three syntaxes')
+                       'behaviour written in up to three orders and three syntaxes; tainted values (quotes, control characters, %XX) x single '
+                       'modifiers and pairs x formats')
 
 
 replay = vc.replay_file
